@@ -302,7 +302,7 @@ def getG (s : State) (n : Nat) : Except String Nat :=
   | none => .error "no such general register"
 
 def setG (s : State) (n v : Nat) : Except String State :=
-  if n < s.gpr.length then strictNat v (fun v => .ok { s with gpr := s.gpr.set n v })
+  if n < s.gpr.length then strictList (s.gpr.set n v) (fun l => .ok { s with gpr := l })
   else .error "no such general register"
 
 def getV (s : State) (n : Nat) : Except String Nat :=
@@ -311,7 +311,7 @@ def getV (s : State) (n : Nat) : Except String Nat :=
   | none => .error "no such vector register"
 
 def setV (s : State) (n v : Nat) : Except String State :=
-  if n < s.vec.length then strictNat v (fun v => .ok { s with vec := s.vec.set n v })
+  if n < s.vec.length then strictList (s.vec.set n v) (fun l => .ok { s with vec := l })
   else .error "no such vector register"
 
 def getK (s : State) (n : Nat) : Except String Nat :=
@@ -320,7 +320,7 @@ def getK (s : State) (n : Nat) : Except String Nat :=
   | none => .error "no such opmask register"
 
 def setK (s : State) (n v : Nat) : Except String State :=
-  if n < s.kreg.length then strictNat v (fun v => .ok { s with kreg := s.kreg.set n v })
+  if n < s.kreg.length then strictList (s.kreg.set n v) (fun l => .ok { s with kreg := l })
   else .error "no such opmask register"
 
 def lookup (l : List (String × Nat)) (name : String) : Option Nat :=
@@ -355,8 +355,8 @@ def writeMem (s : State) (addr : Nat) (bs : List Nat) : Except String State :=
   | some reg =>
     if !reg.writable then .error ("write to read-only region " ++ reg.name) else
     if off + bs.length ≤ reg.bytes.length then
-      strictList bs (fun bs =>
-        let reg' : Region := ⟨reg.name, reg.bytes.take off ++ bs ++ reg.bytes.drop (off + bs.length), true⟩
+      strictList (reg.bytes.take off ++ bs ++ reg.bytes.drop (off + bs.length)) (fun bytes =>
+        let reg' : Region := ⟨reg.name, bytes, true⟩
         .ok { s with mem := s.mem.set (r - 1) reg' })
     else .error ("write past the end of region " ++ reg.name)
 
